@@ -277,7 +277,81 @@ def rule_deleted_suffix(ctx):
         ctx.floor(R, "sanitize_path call in aggregate", n, 1)
 
 
+# variants of procfs' MMapPath that carry data which is part of the name in the maps file
+PAYLOAD_VARIANTS = {"Path": "the file path", "TStack": "[stack:<tid>]: the thread id", "Vsys": "/SYSV<key>: the shm key", "Other": "[<name>]: any other pseudo-path"}
+
+
+def rule_name_conversion(ctx, R="C13/name-conversion"):
+    """`same name` is decided on the name this crate derives from the parsed path kind, so that conversion must be injective:
+    one arm per kind, pairwise different literal/format templates, and a kind's payload (tid, key, text, path) ends up in its name."""
+    b = ctx.body(R, "MappingInfo::aggregate")
+    if b is None:
+        return
+    o = Origin(b)
+    sws = []
+    for x in range(b.n):
+        if b.blocks[x]["cleanup"] or b.term(x)["k"] != "switch":
+            continue
+        a, _ = switch_atom(b, o, x)
+        if a[0] == "discr" and strip(a[1])[0] == "field" and strip(a[1])[2] == "pathname":
+            sws.append(x)
+    if len(sws) != 1:
+        ctx.violated(R, ("anchor", "match on the path kind"), b.where(0), "anchor lost: expected one match on mm.pathname's kind in aggregate, found %d" % len(sws))
+        return
+    x = sws[0]
+    arms = [(t, lab[1]) for (t, lab) in b.succ_edges(x) if lab[0] == "sw" and lab[1] != "otherwise" and b.term(t)["k"] != "unreachable"]
+    other = [t for (t, lab) in b.succ_edges(x) if lab[0] == "sw" and lab[1] == "otherwise" and b.term(t)["k"] != "unreachable"]
+    ctx.floor(R, "path kinds matched", len(arms) + len(other), 11)
+    tg = [t for t, _ in arms] + other
+    ctx.check(len(set(tg)) == len(tg) and len(other) <= 1, R, "one-arm-per-kind", b.where(x), "every path kind has its own arm (%d)" % len(tg),
+              "two path kinds share one arm (%d kinds, %d arms): they are given the same name and their lines merge" % (len(tg), len(set(tg))))
+    # the name that reaches the comparison: the argument of is_mapping_a_path right after the match
+    use = [bi for bi, t in b.calls(lambda c: c.endswith("is_mapping_a_path"))]
+    if not use:
+        ctx.violated(R, ("anchor", "is_mapping_a_path"), b.where(x), "anchor lost: the derived name is not passed to is_mapping_a_path")
+        return
+    names = alts(o.call_args(use[0])[0])
+
+    def unwrap(e):
+        e = strip(e)
+        while e[0] == "call" and e[1].split("::")[-1] in ("as_deref", "as_ref", "must_use", "into", "from") and e[2]:
+            e = strip(e[2][0])
+        return e
+    sigs, nones, payload_of = [], 0, {}
+    for e in names:
+        e = unwrap(e)
+        if e[0] == "agg" and e[2] == "None":
+            nones += 1
+            continue
+        if not (e[0] == "agg" and e[2] == "Some"):
+            ctx.unproven(R, ("name", "shape"), b.where(x), "derived name has an unrecognised form: %s" % show(e)[:100])
+            continue
+        v = unwrap(dict(e[3])["0"])
+        used = {q[2] for q in walk(v) if q[0] == "variant"}
+        lits = [q[1] for q in walk(v) if q[0] == "str"]
+        if v[0] == "str":
+            sig = ("lit", v[1])
+        elif v[0] == "call" and v[1].split("::")[-1] == "format" and lits:
+            sig = ("fmt", lits[0])
+        elif v[0] == "call" and v[1].endswith("sanitize_path"):
+            sig = ("path",)
+        else:
+            sig = ("?", show(v)[:60])
+        sigs.append(sig)
+        for u in used:
+            payload_of.setdefault(u, []).append(sig)
+    ctx.check(nones == 1, R, "anonymous-only-none", b.where(x), "exactly one kind (anonymous) has no name", "%d kinds are given no name" % nones)
+    dup = sorted({repr(s_) for s_ in sigs if sigs.count(s_) > 1})
+    ctx.check(not dup and len(sigs) + nones == len(tg), R, "names-distinct", b.where(x), "the %d named kinds get pairwise different literals/templates" % len(sigs),
+              "path kinds do not get pairwise different names (%d kinds, %d names; repeated: %s)" % (len(tg), len(sigs) + nones, ", ".join(dup)[:120]))
+    for var, why in sorted(PAYLOAD_VARIANTS.items()):
+        got = payload_of.get(var, [])
+        ctx.check(len(got) == 1 and got[0][0] in ("fmt", "path"), R, ("payload-in-name", var), b.where(x), "%s is part of the derived name" % why,
+                  "the data of kind %s (%s) does not reach its derived name: different lines of that kind compare equal" % (var, why))
+
+
 def run(ctx):
+    rule_name_conversion(ctx)
     from rules import preds
     preds.run(ctx, PROPERTY, ['is_executable', 'is_empty_page', 'is_mapping_a_path', 'auxv_is_complete'])   # the opaque predicates these rules lean on, against oracle tables
     rule_merges(ctx)
